@@ -11,8 +11,8 @@ ENTRY = {
             "numbers up to 2^61-1; truncations, byte flips and insertions in the malformed stream) with a non-empty out prefix and spare capacity; observable = returned bytes / error class / panic, compared with the "
             "extracted Coq model run on the same rewriter and bytes (corr); the oracle column holds structural checks by an independent wire reader: output parses, untouched fields carried over in order and byte-identical "
             "for canonical input, prefix, input (and its spare capacity) and rewriter unchanged, second application identical. rw.val: Unmarshal(rewrite(in)) compared with Unmarshal(in) in which the templated fields are "
-            "replaced (or bit-or'ed) as the template says. The suffix of the case name is an input feature selecting a recorded deviation (big, fix, bitorzz, dup, split, repz, repmsg, mapzero, range) or a stream without "
-            "property oracle (tmix, mal).",
+            "replaced (or bit-or'ed) as the template says. Entries at index >= 256, fixed32/fixed64-tagged fields, BitOr on zig-zag and fixed fields and out-of-range uint32 template numbers (oracle: template error) are part of the "
+            "clean streams. The suffix of the case name is an input feature selecting a recorded deviation (dup, split, repz, repmsg, mapzero) or a stream without property oracle (tmix, mal).",
     "nontrivial": nontrivial_default,
     "trusted_base": COMMON_TB + [
         "Proto/RewriteModel.v: hand-written model of MessageRewriter/multiRewriter/embddedRewriter/bitOrRW/RawMessage.Rewrite, fieldset, Parse, Append; a MessageRewriter is modelled as its length plus its non-nil entries in index order; "
@@ -26,12 +26,14 @@ ENTRY = {
 }
 
 CLAIM = {
-    "text": "Theorems (Properties/C19.v), for every byte string shorter than 2^62 and every rewriter tree: the model of Rewrite returns exactly the abstract rewrite on field lists appended to out, or an error exactly when the abstract "
-            "rewrite has none, without panic or fuel exhaustion, PROVIDED every non-nil entry has a bit in the seen-set (rewrite_refines, rewrite_no_panic_partial); without that proviso the claim is refuted (MessageRewriter{256: ..} "
-            "panics: makeFieldset rounds down) and seen_bits_spec says exactly which lengths are safe (all <= 256; beyond, (n+1) mod 64 in {0,1,63}). For a regular message rewriter on a valid message the output is a valid message, "
-            "the fields of unmentioned numbers are the input's in the same order with the same raw values (byte-identical for canonical input), and the fields of a templated number are exactly what its rewriter emits for the "
-            "first value of that number (rewrite_output, emit_kinds); bit-or reads back as value|mask on int32/int64/uint32/uint64 fields and is refuted on zig-zag fields (bitor_zigzag_refuted/actual).",
-    "note": "Trusted: Coq kernel, translator (wire primitives), extraction+driver, harness; the hand-written rewriter model tied by correspondence on the reflected rewriter; the template compiler and the value-level reading "
-            "(decode of the output) are covered by differential execution only. Recorded deviations of the library (seen-set sizing, fixed32/64-tagged fields, BitOr on zig-zag, first-occurrence semantics for BitOr and split "
-            "sub-messages, zero elements of repeated templates, element templates applied on the first input element, empty map entry, uint32 range) are isolated in their own case streams.",
+    "text": "Theorems (Properties/C19.v), for every byte string shorter than 2^62 and every rewriter tree (RawMessage, MultiRewriter, MessageRewriter of any length, embedded message rewriters, bitOrRW of every accepted kind): "
+            "the model of Rewrite returns exactly the abstract rewrite on field lists appended to out, or an error exactly when the abstract rewrite has none (rewrite_refines), never panics and always terminates "
+            "(rewrite_no_panic; the seen-set has a bit for every index: seen_bits_spec, fits_all). For a regular message rewriter on a valid message the output is a valid message, the fields of unmentioned numbers are the "
+            "input's in the same order with the same raw values (byte-identical for canonical input), and the fields of a templated number are exactly what its rewriter emits for the first value of that number, or for the "
+            "empty value when absent (rewrite_output, rewrite_message, rewrite_canonical, emit_kinds); a bit-or rewriter writes one canonical field holding the field's encoding of value|mask for all ten kinds "
+            "(bitor_roundtrip, bitor_field_spec).",
+    "note": "Trusted: Coq kernel, translator (wire primitives), extraction+driver, harness; the hand-written rewriter model tied by correspondence on the rewriter read back from the library by reflection; the template compiler "
+            "and the value-level reading (decode of the output) are covered by differential execution only. The theorems speak about the FIRST occurrence of a templated number: where protobuf reads the last occurrence "
+            "(BitOr on a repeated singular field) or merges occurrences (split sub-messages) the library deviates from the value-level property; these and three template-compiler deviations (zero elements of repeated "
+            "templates, element templates applied on the first input element, empty-key zero-value map entry) are recorded known findings isolated in their own case streams.",
 }
